@@ -1174,12 +1174,12 @@ func (r *reader) pushChar(src []byte) {
 			}
 			break
 		}
-		if rn, n := utf8.DecodeRune(src[r.tokenStart:r.pos]); 0 < n {
+		if rn, n := utf8.DecodeRune(token); 0 < n {
 			c = Character(rn)
 		}
 	}
 	if c == 0 {
-		r.raise(`'#\%s' is not a valid character`, src[r.tokenStart:r.pos])
+		r.raise(`'#\%s' is not a valid character`, token)
 	}
 	if 0 < len(r.stack) {
 		r.stack = append(r.stack, c)
